@@ -106,7 +106,9 @@ func TestVerifC06Network(t *testing.T) {
 				}
 				pid := b.NewPid()
 				tpl := TransactionTemplate("application/did+json", dag.VerifC06Payload(&pid), kid).WithAttachKey(pub).WithAdditionalPrevs(addH)
+				stop := dag.VerifC06Watch("create " + note)
 				tx, err := n.CreateTransaction(ctx, tpl)
+				stop()
 				if additional == nil {
 					additional = []string{}
 				}
@@ -149,10 +151,10 @@ func TestVerifC06Network(t *testing.T) {
 				}
 				emit(map[string]any{"op": "doc", "did": docDID.String(), "src": src.ref, "doc": map[string]any{"res": "doc", "vms": [][]any{{vmID.String(), signer}}}}, "doc")
 				prevs, kidS, sg, note := []string{src.ref}, vmID.String(), signer, "foreign:kid-valid"
-				switch rnd.Intn(5) {
+				switch rnd.Intn(6) {
 				case 0:
 					prevs, note = []string{other.ref, src.ref}, "foreign:kid-via-later-prev"
-				case 1:
+				case 1, 5:
 					if other.ref != src.ref {
 						prevs, note = []string{other.ref}, "foreign:kid-document-not-as-of-prevs"
 					}
@@ -180,7 +182,9 @@ func TestVerifC06Network(t *testing.T) {
 				if perr != nil {
 					res = dag.VerifC06ParseClass(perr)
 				} else {
+					stop := dag.VerifC06Watch("add " + note)
 					res = dag.VerifC06AddClass(n.state.Add(context.Background(), tx, dag.VerifC06Payload(c.Pid)))
+					stop()
 				}
 				emit(map[string]any{"op": "add", "call": c}, "r="+res+" | "+obs())
 				if isPresent(c.Jws["ref"].(string)) {
@@ -227,7 +231,9 @@ func TestVerifC06Network(t *testing.T) {
 				if perr != nil {
 					res = dag.VerifC06ParseClass(perr)
 				} else {
+					stop := dag.VerifC06Watch("add " + note)
 					res = dag.VerifC06AddClass(n.state.Add(context.Background(), tx, dag.VerifC06Payload(c.Pid)))
+					stop()
 				}
 				emit(map[string]any{"op": "add", "call": c}, "r="+res+" | "+obs())
 				if isPresent(c.Jws["ref"].(string)) {
